@@ -27,7 +27,7 @@ type c03Params struct {
 // backend that answers after 11 s, one that hangs for 61 s before the transport gives up, one
 // whose answer takes over an hour
 var c03Events = []string{"req-ok", "req-500", "req-refused", "req-abort", "clock+1.1s", "clock+11s", "req-garbage", "req-eof", "req-timeout", "req-103-then-500",
-	"slow-11s-ok", "slow-61s-timeout", "slow-3601s-500", "slow-11s-abort"}
+	"slow-11s-ok", "slow-61s-timeout", "slow-3601s-500", "slow-11s-abort", "req-503-retry-after-a-day"}
 
 // with active checks: one probe round in which every backend answers the probe that way
 var c03ProbeEvents = []string{"probes-ok", "probes-500", "probes-refuse", "probes-garbage", "probes-eof", "probes-timeout"}
@@ -72,7 +72,7 @@ func (in *c03Inst) Step(ev int) *vh.HViol {
 		in.out = "probed"
 		return nil
 	}
-	mode := []string{"ok", "500", "refuse", "abort", "", "", "garbage", "eof", "timeout", "103+500", "slow11+ok", "slow61+timeout", "slow3601+500", "slow11+abort"}[ev]
+	mode := []string{"ok", "500", "refuse", "abort", "", "", "garbage", "eof", "timeout", "103+500", "slow11+ok", "slow61+timeout", "slow3601+500", "slow11+abort", "500ra"}[ev]
 	res := in.k.requestMode("10.0.0.1", mode)
 	in.out = fmt.Sprintf("%d/%v", res.Status, res.Aborted)
 	if res.Status == 0 && !res.Aborted {
